@@ -10,10 +10,18 @@ pub(crate) mod verif_kani {
     pub static mut REQUESTS: usize = 0;
     pub static mut LAST_REQUEST_LEN: usize = 0;
     pub static mut SOURCE_FAILS: bool = false;
+    extern "C" {
+        fn __errno_location() -> *mut c_int;
+    }
     pub unsafe fn getentropy_contract(buffer: *mut u8, len: usize) -> c_int {
         REQUESTS += 1;
         LAST_REQUEST_LEN = len;
         if SOURCE_FAILS {
+            // getentropy(3): "on error, -1 is returned and errno is set to indicate the error" - any error number
+            // (EFAULT, EIO, ENOSYS, EINTR, ...): the caller must not be able to tell a failure it may ignore
+            let e: c_int = kani::any();
+            kani::assume(e > 0 && e < 4096);
+            *__errno_location() = e;
             return -1;
         }
         let mut i = 0;
